@@ -238,7 +238,13 @@ pub fn in_pool<T: Send>(threads: usize, f: impl FnOnce() -> T + Send) -> T {
             ),
         }
     };
-    let r = catch_unwind(AssertUnwindSafe(|| p.install(f)));
+    let crash = CrashScope::current();
+    let r = catch_unwind(AssertUnwindSafe(|| {
+        p.install(move || {
+            let _crash = CrashScope::adopt(crash);
+            f()
+        })
+    }));
     pool_store().lock().unwrap().entry(threads).or_default().push(p);
     match r {
         Ok(v) => v,
@@ -386,7 +392,9 @@ pub fn in_pool_budgeted<T: Send>(threads: usize, budget: Arc<RngBudget>, f: impl
         // a single worker: set the budget on that thread inside the job (no broadcast round trips)
         let b2 = budget.clone();
         catch_unwind(AssertUnwindSafe(|| {
+            let crash = CrashScope::current();
             p.install(move || {
+                let _crash = CrashScope::adopt(crash);
                 set_rng_budget(Some(b2));
                 struct Reset;
                 impl Drop for Reset {
@@ -400,14 +408,116 @@ pub fn in_pool_budgeted<T: Send>(threads: usize, budget: Arc<RngBudget>, f: impl
         }))
     } else {
         let b2 = budget.clone();
-        p.broadcast(move |_| set_rng_budget(Some(b2.clone())));
+        let crash = CrashScope::current();
+        p.broadcast(move |_| {
+            set_rng_budget(Some(b2.clone()));
+            // every pool thread works for the caller's case until the second broadcast
+            std::mem::forget(CrashScope::adopt(crash));
+        });
         let r = catch_unwind(AssertUnwindSafe(|| p.install(f)));
-        p.broadcast(|_| set_rng_budget(None));
+        p.broadcast(|_| {
+            set_rng_budget(None);
+            std::mem::forget(CrashScope::adopt(None));
+        });
         r
     };
     pool_store().lock().unwrap().entry(threads).or_default().push(p);
     match r {
         Ok(v) => v,
         Err(e) => std::panic::resume_unwind(e),
+    }
+}
+
+
+// ------------------------------------------------------------------------------------------------
+// Fatal signals inside the code under test (an aligned load on an unaligned address, an out-of-bounds read in a SIMD
+// kernel, ...) kill the process. The worker records which case it is executing; the handler turns the death into a
+// reported violation with that case as the replay file. Best effort: it allocates and formats inside a signal
+// handler, which is acceptable only because the process is about to die anyway; if the handler itself fails, the
+// default action (death by signal, exit code 128+n) is what remains.
+
+type CaseSerializer = fn(*const ()) -> String;
+
+thread_local! {
+    static CRASH_CASE: std::cell::Cell<Option<(*const (), CaseSerializer, &'static str)>> = const { std::cell::Cell::new(None) };
+}
+
+pub struct CrashScope(Option<(*const (), CaseSerializer, &'static str)>);
+
+impl CrashScope {
+    /// `case` must outlive the scope.
+    pub fn enter<V: serde::Serialize>(case: &V, engine: &'static str) -> CrashScope {
+        fn ser<V: serde::Serialize>(p: *const ()) -> String {
+            // SAFETY: set from a live `&V` by `enter`, cleared by `drop` before the value goes away
+            serde_json::to_string(unsafe { &*(p as *const V) }).unwrap_or_else(|_| "null".into())
+        }
+        let prev = CRASH_CASE.with(|c| c.replace(Some((case as *const V as *const (), ser::<V>, engine))));
+        CrashScope(prev)
+    }
+    /// The current thread's case, to hand to a helper thread that executes part of it.
+    pub fn current() -> Option<(usize, CaseSerializer, &'static str)> {
+        CRASH_CASE.with(|c| c.get()).map(|(p, f, e)| (p as usize, f, e))
+    }
+    pub fn adopt(info: Option<(usize, CaseSerializer, &'static str)>) -> CrashScope {
+        let prev = CRASH_CASE.with(|c| c.replace(info.map(|(p, f, e)| (p as *const (), f, e))));
+        CrashScope(prev)
+    }
+}
+
+impl Drop for CrashScope {
+    fn drop(&mut self) {
+        CRASH_CASE.with(|c| c.set(self.0.take()));
+    }
+}
+
+extern "C" fn on_fatal_signal(sig: libc::c_int) {
+    // a second fault while reporting: die the default way
+    unsafe {
+        libc::signal(sig, libc::SIG_DFL);
+    }
+    let info = CRASH_CASE.try_with(|c| c.get()).ok().flatten();
+    let name = match sig {
+        libc::SIGSEGV => "SIGSEGV",
+        libc::SIGBUS => "SIGBUS",
+        libc::SIGILL => "SIGILL",
+        libc::SIGFPE => "SIGFPE",
+        _ => "signal",
+    };
+    match info {
+        Some((ptr, ser, engine)) => {
+            let prop = crate::current_property();
+            let case = ser(ptr);
+            let dir = crate::runner::verif_root().join("replays");
+            let _ = std::fs::create_dir_all(&dir);
+            let path = dir.join(format!("{prop}-crash-{}.json", std::process::id()));
+            let msg = format!("the process received {name} while executing this case (memory-unsafe code under test)");
+            let text = format!(
+                "{{\"engine\": {}, \"property\": {}, \"signature\": \"crash:signal\", \"oracle_message\": {}, \"case\": {case}}}",
+                serde_json::to_string(engine).unwrap_or_default(),
+                serde_json::to_string(&prop).unwrap_or_default(),
+                serde_json::to_string(&msg).unwrap_or_default()
+            );
+            let _ = std::fs::write(&path, text);
+            let out = format!("violation: [crash:signal] {msg}\nVIOLATION property={prop} replay={}\n", path.display());
+            unsafe {
+                libc::write(1, out.as_ptr() as *const libc::c_void, out.len());
+                libc::_exit(1);
+            }
+        }
+        None => unsafe {
+            libc::raise(sig);
+        },
+    }
+}
+
+pub fn install_crash_handler() {
+    for sig in [libc::SIGSEGV, libc::SIGBUS, libc::SIGILL, libc::SIGFPE] {
+        unsafe {
+            let mut sa: libc::sigaction = std::mem::zeroed();
+            sa.sa_sigaction = on_fatal_signal as usize;
+            sa.sa_flags = libc::SA_NODEFER;
+            libc::sigemptyset(&mut sa.sa_mask);
+            libc::sigaction(sig, &sa, std::ptr::null_mut());
+        }
     }
 }
